@@ -572,6 +572,7 @@ class IH5Group(IH5InnerNode):
     # h5py-like interface
 
     def __setitem__(self, path: str, value):
+        self._guard_value(value)  # (assigning a node would be a hard link)
         return self.create_dataset(path, data=value)
 
     def __delitem__(self, key: str):
@@ -640,6 +641,8 @@ class IH5Group(IH5InnerNode):
         self._guard_open()
         self._guard_read_only()
         self._guard_key(path)
+        if isinstance(data, IH5Dataset):
+            data = data[()]  # a dataset as source of the values (like with h5py)
         self._guard_value(data)
 
         if unknown_kwargs := set(kwargs.keys()) - {"compression", "compression_opts"}:
